@@ -114,6 +114,8 @@ impl Segment {
             Some(val) => val,
             None => self.config.segment.server_confirmation,
         };
+        #[cfg(iggy_verif)]
+        iggy::verif::point("persist.before_save_batches").await;
         let saved_bytes = self
             .log_writer
             .as_mut()
@@ -124,6 +126,8 @@ impl Segment {
                 format!("Failed to save batch of size {batch_size} for {self}. {error}",)
             })?;
 
+        #[cfg(iggy_verif)]
+        iggy::verif::point("persist.before_save_index").await;
         self.index_writer
             .as_mut()
             .unwrap()
